@@ -142,4 +142,9 @@ def main():
 
 
 if __name__ == "__main__":
-    sys.exit(main())
+    rc = main()
+    try:
+        os.rmdir(SCR)   # the per-process scratch parent, if empty
+    except OSError:
+        pass
+    sys.exit(rc)
